@@ -364,11 +364,11 @@ CHECKS = {
         protos=[dict(name='ckpt', quick_seeds=1, thorough_seeds=2)],
         rule="(a) 1500 / 60000 directories of 0-8 checkpoint names (term-index, shuffled, some with indexes not monotone in the term) x keepNum 0-4 x latestSnapIndex: the real purgeOldCheckpoint on real directories vs the Lean model; "
              "(b) sessions on real stores (pebble, rocksdb): a log that is a fixed function of the index (KV, hash, list, zset, counter writes), backups at random instants (also twice at one index), restores of random earlier checkpoints followed by replay of the same log, repeated restores; "
-             "oracle: logical dump after restore = dump recorded at backup time, data files of EVERY checkpoint unchanged since written, restore succeeds, checkpoint still exists; non-trivial = answered without error; distinct = distinct op lines",
+             "oracle: logical dump after restore = dump recorded at backup time, data files of EVERY checkpoint unchanged since written, restore succeeds, checkpoint still exists; (c) xfetch (6 / 60 runs): two replicas of one log with different checkpoint instants (half of them with 1 kB incompressible values and a forced flush: same-named sst files beyond 256 kB), the lagging one installs the other's checkpoint through RestoreFromRemoteBackup: data = the source replica's at that index, source checkpoint unchanged, both agree after 20 more entries; non-trivial = answered without error; distinct = distinct op lines",
         trusted=["engine checkpoint consistency (Pebble / RocksDB Checkpoint = a consistent snapshot) is the engines' contract",
                  "SameSstSound: restoreFromPath keeps a live .sst with the checkpoint's name when size and the last 256 KiB agree (explicit hypothesis of the file-level theorem as the `same` parameter; cannot be proved)",
                  "the file-level inode model (Z.Ckpt) is not differentially tied: only its consequences are observed by the oracle (checkpoint data files unchanged)"],
-        partial=["C14_state_at_index (restore yields exactly the state at index i) is oracle-only on the real engines", "hllCache flush before backup, remote-backup rename path: not exercised", "mem engine has no checkpoint"],
+        partial=["C14_state_at_index (restore yields exactly the state at index i) is oracle-only on the real engines", "remote-backup path exercised by a plain copy of the checkpoint directory (the rsync transfer itself is not run)", "mem engine has no checkpoint"],
         assumptions=["C14_purge_safe: indexes do not decrease along the (term, index) order of checkpoint names (a later term's snapshot has a later index)"],
         level_text="Theorems: (file level) in the inode model of restoreFromPath - hard-linked sst files, copied other files - a restore leaves the checkpoint directory's view unchanged and establishes an invariant under which NO later engine activity (create / unlink / append to non-sst files) changes it, for every history of restores and writes and every `same` test; (purge) the real purge algorithm, modelled exactly and tied line by line to purgeOldCheckpoint on real directories, never removes one of the newest keepNum checkpoints and never removes a checkpoint at or above the latest recorded snapshot index. On real pebble and rocksdb stores the oracle checks that every restore yields exactly the logical state recorded at backup time and that no checkpoint's data files ever change.",
         level_note="restore exactness is oracle-level (engines are black boxes); SameSstSound is a hypothesis",
